@@ -113,7 +113,7 @@ TOTAL = sum(_LENS)
 
 
 @harness(
-    "C03", timeout=(200, 1500),
+    "C03", timeout=(300, 1500),
     shards=_seq_shards,
     functions=["transport:AssociationSocket.recv", "transport:AssociationSocket.ready", "dul:DULServiceProvider._is_transport_event",
                "dul:DULServiceProvider._read_pdu_data", "dul:DULServiceProvider._decode_pdu"],
@@ -189,7 +189,7 @@ N_LCUTS = tier(2, 3)
 
 
 @harness(
-    "C03", timeout=(200, 1500),
+    "C03", timeout=(300, 1500),
     shards=[{"mode": "cuts"}, {"mode": "close"}],
     functions=["transport:AssociationSocket.recv", "transport:AssociationSocket.ready", "dul:DULServiceProvider._is_transport_event",
                "dul:DULServiceProvider._read_pdu_data", "dul:DULServiceProvider._decode_pdu"],
